@@ -61,8 +61,8 @@ CLAIMED = {
              "PauliRotation, UnitaryMatrix, the residual-count arithmetic and noiseless ZNE.",
         design_ref="DESIGN.md section 4 (C12)",
         note="Trusted: Coq kernel+vm_compute; Reals axioms + funext; translate/inverse.py; documented matrices. "
-             "Partial: PauliRotation/UnitaryMatrix, float arithmetic of the residual gate count, extrapolation "
-             "numerics and qsub Inverse (C19) are decided by the sweep.",
+             "Partial: UnitaryMatrix (PauliRotation has pauli_rotation_inverse_undoes), float arithmetic of the residual gate "
+             "count, extrapolation numerics and qsub Inverse (C19) are decided by the sweep.",
         technique="Coq proof over a table regenerated by symbolic evaluation of inverse_gate + induction over "
                   "circuits; vm_compute correspondence of the folding model; numpy sweep"),
     "C02": dict(
@@ -92,7 +92,7 @@ CLAIMED = {
              "its decisions tied by vm_compute correspondence.",
         design_ref="DESIGN.md section 4 (C16)",
         note="Trusted: Coq kernel+vm_compute; Reals axioms + funext; correspondence harness. Partial: "
-             "comp_basis_superposition has no theorem yet (sweep only).",
+             "mixed chains of Pauli and non-Pauli gates on a ComputationalBasisState are decided by the sweep.",
         technique="Coq proof (induction over the gate sequence, bitwise lemmas on N) + vm_compute correspondence + "
                   "dense numpy sweep"),
     "C04": dict(
@@ -161,8 +161,11 @@ CLAIMED = {
         text="Coq theorems (gf2_inverse_is_two_sided_inverse, inverse_state_mapper_undoes_state_mapper, "
              "state_mapper_undoes_inverse_state_mapper, mapped_number_operators_read_back_the_occupation, "
              "jw_filter_accepts_exactly_the_sector, positions_are_the_set_bits, inverse_mapper_filters_accept_exactly_images, "
-             "scbk_parity_factor_counts_spin_up): for every size and every GF(2) matrix, whenever the model of the "
-             "Gauss-Jordan inverse() ends with the identity, its result is a two-sided inverse; hence for every number of "
+             "scbk_parity_factor_counts_spin_up, gf2_inverse_succeeds_on_every_invertible_matrix, "
+             "mappers_round_trip_for_every_invertible_number_operator_matrix): for every size and every GF(2) matrix, whenever "
+             "the model of the Gauss-Jordan inverse() ends with the identity, its result is a two-sided inverse, and it does "
+             "end with the identity - a pivot in every column, no row added to itself - on every square matrix with trivial "
+             "kernel (completeness); hence for every number of "
              "spin orbitals, every number-operator matrix and sign vector of a mapping that keeps all qubits (JW, BK), the "
              "inverse state mapper undoes the state mapper and vice versa, and the mapped number operators read back the "
              "occupation on the mapped state; the JW filter accepts exactly the requested (n_e, sz) sector for bit strings "
@@ -174,7 +177,7 @@ CLAIMED = {
         design_ref="DESIGN.md section 4 (C13)",
         note="Trusted: Coq kernel+vm_compute (theorems closed under the global context); OpenFermion transforms are "
              "parameters (contract validated per instance); correspondence harness; AST fingerprints. Partial: "
-             "completeness of Gauss-Jordan (invertible => identity reached) is evaluated per instance, not proved; SCBK "
+             "that the JW/BK matrices read from the real objects are invertible is evaluated per instance; SCBK "
              "round trips and operator matrix elements are decided by sweep/correspondence only.",
         technique="Coq proof (row-operation invariants on bit vectors, list/positive induction) + vm_compute "
                   "correspondence incl. theorem-hypothesis evaluation + Fock-space numpy sweep"),
@@ -290,7 +293,7 @@ CLAIMED = {
              "misalignment defect found by this check was repaired (fix: commit a459cb3).",
         design_ref="DESIGN.md section 4 (C08)",
         note="Trusted: Coq kernel; Reals axioms; sampler/multinomial contracts as Section variables; AST fingerprints. "
-             "Partial: binary64 rounding of total*ratio; reconstruction of expectation values is decided by the sweep.",
+             "Partial: binary64 rounding of total*ratio; the standard-error estimate is outside the property and not modelled.",
         technique="Coq proof (list induction for pairing, real-arithmetic floor bounds for budgets) + vm_compute "
                   "correspondence + ideal-sampler numpy sweep"),
     "C11": dict(
@@ -342,22 +345,31 @@ CLAIMED = {
                   "by vm_compute) + vm_compute correspondence + dense numpy sweep"),
     "C03": dict(
         category="proof",
-        text="Coq theorems (qulacs_/cirq_/braket_/qiskit_convert_gate_sound with their *_conv_rows_ok and *_conv_total): the "
-             "backend gate that each of the four forward converters builds for every modelled gate kind - obtained by "
-             "fail-closed symbolic evaluation of the adapter source on every run; backend gates read through contract tables, "
-             "matrices defined by the converters themselves (Cirq U1/U2/U3 classes, literal SqrtY matrices) translated entry by "
-             "entry - acts as the library gate up to a global phase for all real angles and all placements (qubit orders, "
-             "sign and argument conventions). The symbolic evaluations are validated against the real converters and the "
-             "contracts against the installed backends' own matrices on every run; all seven adapters in both directions are "
-             "swept against each backend's simulator. Four defects found by this check were repaired (fix: commits), two "
-             "tket ones are known findings.",
+        text="Coq theorems (qulacs_/cirq_/braket_/qiskit_convert_gate_sound, tket_convert_circuit_gate_sound, "
+             "qasm_and_stim_exported_gate_sound with their *_rows_ok and totality lemmas; reverse_converted_gate_sound, "
+             "qulacs_rotation_angle_recovered): the backend gate that each forward converter (Qulacs, Cirq, Braket, Qiskit, "
+             "tket, the OpenQASM 3 exporter, the named gates of the Stim converter) builds for every modelled gate kind - "
+             "obtained by fail-closed symbolic evaluation of the adapter source on every run; backend gates read through "
+             "contract tables, matrices defined by the converters themselves (Cirq U1/U2/U3 classes, literal SqrtY matrices) "
+             "translated entry by entry, tket's half-turn scalings kept symbolically - acts as the library gate up to a global "
+             "phase for all real angles and all placements (qubit orders, sign and argument conventions); in the reverse "
+             "direction the library gate returned by gate_from_braket (incl. its U1/U2/U3 choice), circuit_from_qiskit, "
+             "circuit_from_cirq, circuit_from_tket and the named branches of circuit_from_qulacs acts as the backend gate it "
+             "came from, and the rotation angles circuit_from_qulacs recovers from gate matrices with cmath.phase give the "
+             "same rotation for every angle and every branch of the phase. The symbolic evaluations are validated against "
+             "the real converters and the contracts against the installed backends' own matrices on every run; all seven "
+             "adapters in both directions are swept against each backend's simulator. Four defects found by this check were "
+             "repaired (fix: commits), two tket ones are known findings.",
         design_ref="DESIGN.md section 4 (C03), 9.2",
-        note="Trusted: Coq kernel+vm_compute; Reals axioms + funext; translate/adapters.py, cirq_adapter.py, "
-             "braket_adapter.py, qiskit_adapter.py; the contract tables (validated each run, not assumed). Partial: Rust "
-             "convert_circuit, parametric/compiled circuits, matrix and Pauli gates, reverse conversions and the tket / "
-             "Stim / OpenQASM adapters have no theorem (backend-simulator sweep only).",
-        technique="Coq proof over conversion tables regenerated by symbolic evaluation of the adapters + validated "
-                  "backend contracts + backend-simulator sweep"),
+        note="Trusted: Coq kernel+vm_compute; Reals axioms + funext; translate/adapters.py, cirq_adapter.py, braket_adapter.py, "
+             "qiskit_adapter.py, tket_adapter.py, qasm_adapter.py, stim_adapter.py, braket_reverse.py, reverse_adapters.py, "
+             "qulacs_reverse.py; the contract tables (validated each run, not assumed); cmath.phase through "
+             "AngleRecovery.phase_contract (hypothesis, shown satisfiable). Partial: Rust convert_circuit, parametric/compiled "
+             "circuits, matrix and Pauli gates, the matrix fallbacks of the reverse converters, qubit numbering of "
+             "multi-register backend circuits and Clifford-angle rotations on their way to Stim have no theorem "
+             "(backend-simulator sweep only).",
+        technique="Coq proof over conversion tables regenerated by symbolic evaluation of the adapters in both directions + "
+                  "real-analysis lemma for angle recovery + validated backend contracts + backend-simulator sweep"),
     "C07": dict(
         category="proof",
         text="Coq theorems: the rotation gates of the measurement circuit (regenerated from /repo) satisfy V P = "
@@ -372,8 +384,7 @@ CLAIMED = {
              "outcome distribution of the measured state is <psi|P|psi> for every state on a register of any size.",
         design_ref="DESIGN.md section 4 (C07), 9.2",
         note="Trusted: Coq kernel+vm_compute; Reals axioms + funext (measurement theorem); translate/tables.py; "
-             "correspondence harness. Partial: special all-X/Y/Z and identity groups, individual grouping, cached "
-             "factory are decided by the sweep.",
+             "correspondence harness. Partial: the cached measurement-circuit factory is decided by the sweep.",
         technique="Coq proof (induction over the Pauli map with commutation lemmas from vm_compute obligations; "
                   "bit-extensionality on N; invariant of the greedy insertion) + vm_compute correspondence + dense sweep"),
 }
